@@ -47,9 +47,11 @@ class Translator:
         unfold=True,
         branch_by_solver: bool = False,
         name_classes=(),
+        opaque_classes=(),
     ):
         self.branch_by_solver = branch_by_solver
         self.name_classes = set(name_classes)
+        self.opaque_classes = set(opaque_classes)
         self.named: dict = {}
         self.ctx = ctx
         self.symbol_values = dict(symbol_values or {})
@@ -128,7 +130,11 @@ class Translator:
             c = _frac(coeff)
             if term == 1:
                 if c != 0:
-                    raise Unsupported(f"numeric constant inside trig: {arg}")
+                    if c.denominator != 1:
+                        raise Unsupported(f"non-integer numeric constant inside trig: {arg}")
+                    k = int(c)  # e^{i k}: opaque unit number e^{i*1} to the k-th power
+                    base = ctx.unit_atom("const1")
+                    out = out * (base if k > 0 else base.conjugate()) ** abs(k)
                 continue
             if term == sp.pi:
                 k = 2 * c
@@ -230,6 +236,8 @@ class Translator:
             if not expo.is_Rational:
                 raise Unsupported(f"exponent {expo}")
             q = _frac(expo)
+            if isinstance(base, sp.Abs) and q.denominator == 1 and q.numerator % 2 == 0:
+                return self.tr(base.args[0]).abs2() ** (q / 2)
             if q.denominator == 1:
                 return self.tr(base) ** q
             if q.denominator in (2, 4, 8):
@@ -299,6 +307,10 @@ class Translator:
         if isinstance(e, AppliedUndef) or (isinstance(e, sp.Function) and type(e).__name__ in self.uf_functions):
             return self._uf(e)
         clsname = type(e).__name__
+        if isinstance(e, sp.factorial) and e.args[0].is_Integer:
+            return ctx.const(int(sp.factorial(int(e.args[0]))))
+        if clsname in self.opaque_classes:
+            return self._opaque_node(e)
         if clsname in self.name_classes:
             return self._named_node(e)
         if clsname == "ComplexSqrt":
@@ -340,6 +352,17 @@ class Translator:
             out = out + self.tr(summand.xreplace(dict(combo)))
         return out
 
+    def _opaque_node(self, e) -> V:
+        """A node whose semantics is not encoded: one fresh complex variable per structurally
+        distinct node (over-approximation: sound for proving equalities)."""
+        table = self.ctx.__dict__.setdefault("opaque_nodes", {})
+        hit = table.get(e)
+        if hit is None:
+            k = len(table)
+            hit = self.ctx.cvar(f"opaque{k}:{type(e).__name__}")
+            table[e] = hit
+        return hit
+
     def _named_node(self, e) -> V:
         """Give the (real) value of an unevaluated node its own solver variable v with
         v*den == num, and record sign lemmas that the solver proves from the domain."""
@@ -373,11 +396,25 @@ class Translator:
         return self._unit_exp(coeff)
 
     def _uf(self, e) -> V:
+        """Uninterpreted function application, Ackermannised: one fresh real variable per
+        distinct argument tuple plus functional-consistency constraints (args equal =>
+        values equal).  Keeps the query inside pure NRA."""
         name = e.func.__name__ if hasattr(e.func, "__name__") else str(e.func)
         args = [self.tr(a) for a in e.args]
         zargs = [a.real_term_nodiv() for a in args]
-        f = self.ctx.uf(name, len(zargs))
-        return V(self.ctx, {B1: (f(*zargs), ZERO)})
+        key = (name, tuple(z.get_id() for z in zargs))
+        apps = self.ctx.__dict__.setdefault("uf_apps", {})
+        hit = apps.get(key)
+        if hit is None:
+            v = self.ctx.fresh(f"uf[{name}]")
+            for (n2, _), (v2, zargs2) in apps.items():
+                if n2 == name and len(zargs2) == len(zargs):
+                    same = z3.And(*[a == b for a, b in zip(zargs, zargs2)]) if zargs else z3.BoolVal(True)
+                    self.ctx.assume(z3.Implies(same, v == v2))
+            apps[key] = (v, zargs)
+            self.ctx.__dict__.setdefault("uf_exprs", {})[str(v)] = e
+            hit = apps[key]
+        return V(self.ctx, {B1: (hit[0], ZERO)})
 
 
 class Angle:
